@@ -51,6 +51,8 @@ TARGETS = [
     ("localcider/backend/sequence.py", "Sequence", "Omega_seq", "omegaSeqCharSrc", "C06Src", {"charloop": 0}),
     ("localcider/backend/sequence.py", "Sequence", "kappa_X", "kappaX2CharSrc", "C06Src", {"charloop": 0}),
     ("localcider/backend/sequence.py", "Sequence", "kappa_X", "kappaX1CharSrc", "C06Src", {"charloop": 1}),
+    # the index arithmetic of the SCD double loop: range bounds, the two subscripts, the distance, the exponent, the final quotient
+    ("localcider/backend/sequence.py", "Sequence", "sequence_charge_decoration", "scdNest", "C07Src", {"pairnest": True}),
 ]
 # the interface (parameter list) each translated fragment had when the CxxSrc proofs were written: the quantities of the object the text
 # reads.  A rewrite that reads other quantities (a new private helper, a cached count, ...) no longer FITS the statement of the proof -
@@ -313,6 +315,75 @@ def loop_frame(f, loop, acc):
     return "%r|%s" % (init, tail)
 
 
+def pair_nest(f, path, cls, fn, lean_name):
+    """`acc = 0; for m in range(a, b): for n in range(c, d): acc = acc + float(q[i]) * float(q[j]) * np.power(dist, e); return acc / self.len`
+    -> Int-valued Lean definitions of a, b, c, d, i, j, dist, the exponent as a Rat and a normalised frame string"""
+    body = [x for x in f.body if not (isinstance(x, ast.Expr) and isinstance(x.value, ast.Constant))]
+    if len(body) != 3 or not isinstance(body[0], ast.Assign) or not isinstance(body[1], ast.For) or not isinstance(body[2], ast.Return):
+        raise Unsupported("not `acc = c; for ...; return ...`")
+    init, outer, ret = body
+    if not (isinstance(init.targets[0], ast.Name) and isinstance(init.value, ast.Constant) and init.value.value == 0):
+        raise Unsupported("accumulator does not start at 0")
+    acc = init.targets[0].id
+    if len(outer.body) != 1 or not isinstance(outer.body[0], ast.For) or outer.orelse:
+        raise Unsupported("outer loop body is not one inner loop")
+    inner = outer.body[0]
+
+    def rng(loop):
+        it = loop.iter
+        if not (isinstance(loop.target, ast.Name) and isinstance(it, ast.Call) and isinstance(it.func, ast.Name) and it.func.id == "range"
+                and len(it.args) == 2 and not it.keywords):
+            raise Unsupported("loop is not `for v in range(a, b)`")
+        return loop.target.id, it.args[0], it.args[1]
+    m, a, b = rng(outer)
+    n, c, d = rng(inner)
+    if len(inner.body) != 1 or inner.orelse:
+        raise Unsupported("inner loop body is not one statement")
+    st = inner.body[0]
+    if isinstance(st, ast.Assign) and isinstance(st.targets[0], ast.Name) and st.targets[0].id == acc and isinstance(st.value, ast.BinOp) \
+            and isinstance(st.value.op, ast.Add) and isinstance(st.value.left, ast.Name) and st.value.left.id == acc:
+        term = st.value.right
+    elif isinstance(st, ast.AugAssign) and isinstance(st.op, ast.Add) and isinstance(st.target, ast.Name) and st.target.id == acc:
+        term = st.value
+    else:
+        raise Unsupported("inner statement is not acc = acc + term")
+    # term = float(q[i]) * float(q[j]) * np.power(dist, e), left-associated
+    if not (isinstance(term, ast.BinOp) and isinstance(term.op, ast.Mult) and isinstance(term.left, ast.BinOp) and isinstance(term.left.op, ast.Mult)):
+        raise Unsupported("term is not a product of three factors")
+    fa, fb, fp = term.left.left, term.left.right, term.right
+
+    def sub(x):
+        if isinstance(x, ast.Call) and isinstance(x.func, ast.Name) and x.func.id == "float" and len(x.args) == 1:
+            x = x.args[0]
+        if not (isinstance(x, ast.Subscript) and isinstance(x.value, ast.Attribute) and isinstance(x.value.value, ast.Name)
+                and x.value.value.id == "self" and x.value.attr == "chargePattern"):
+            raise Unsupported("factor is not self.chargePattern[...]")
+        return x.slice
+    ia, ib = sub(fa), sub(fb)
+    if not (isinstance(fp, ast.Call) and isinstance(fp.func, ast.Attribute) and fp.func.attr == "power" and len(fp.args) == 2
+            and isinstance(fp.args[1], ast.Constant) and isinstance(fp.args[1].value, float)):
+        raise Unsupported("third factor is not np.power(dist, <float constant>)")
+    dist, ex = fp.args[0], Fraction(repr(fp.args[1].value))
+    if not (isinstance(ret.value, ast.BinOp) and isinstance(ret.value.op, ast.Div) and isinstance(ret.value.left, ast.Name) and ret.value.left.id == acc):
+        raise Unsupported("return is not acc / ...")
+    out = []
+
+    def emit(name, e, args):
+        tr = Tr(args, (), "Int", None)
+        txt = tr.expr(e, set())
+        extra = [p_ for p_ in tr.params if p_ not in args]
+        if extra and extra != ["len"]:
+            raise Unsupported("%s reads %s" % (name, ",".join(extra)))
+        ps = list(args) + (["len"] if "len" not in args else [])
+        out.append("def %s%s %s : Int := %s" % (lean_name, name, " ".join("(%s : Int)" % q for q in ps), txt))
+    emit("OuterLo", a, []); emit("OuterHi", b, [])
+    emit("InnerLo", c, [m]); emit("InnerHi", d, [m])
+    emit("IdxA", ia, [m, n]); emit("IdxB", ib, [m, n]); emit("Dist", dist, [m, n])
+    emit("Denom", ret.value.right, [])
+    out.append("def %sExp : Rat := (%d : Rat) / %d" % (lean_name, ex.numerator, ex.denominator))
+    return ("/-- translated from %s:%s.%s (loop nest at line %d) -/\n" % (path, cls, fn, outer.lineno)) + "\n".join(out) + "\n"
+
+
 def find_func(tree, cls, name):
     plain = name.split("__")[-1] if name.startswith("_" + cls + "__") else name
     for n in tree.body:
@@ -334,6 +405,10 @@ def main():
             args = [a.arg for a in f.args.args if a.arg != "self"]
             opt = rest_t[0] if rest_t else ()
             stmts = f.body
+            if isinstance(opt, dict) and opt.get("pairnest"):
+                defs.append(pair_nest(f, path, cls, fn, lean_name))
+                info[lean_name] = ["len"]
+                continue
             if isinstance(opt, dict) and "charloop" in opt:
                 loops = sorted((x for x in ast.walk(f) if isinstance(x, ast.For)), key=lambda x: x.lineno)
                 if len(loops) <= opt["charloop"]:
